@@ -23,9 +23,9 @@ TRUSTED_BASE = [
 
 # per property: (family, quick count, build) ; thorough multiplies the count
 PROPS = {
-    "C01": dict(fams=[("rt01", 3000, "fast"), ("print", 600, "fast"), ("chars", 1, "fast"), ("rt01", 800, "nofast")], mult=20),
-    "C02": dict(fams=[("rt02", 3000, "fast"), ("rtall", 1, "fast"), ("chars", 1, "fast")], mult=10),
-    "C03": dict(fams=[("short", 1, "fast"), ("deep", 1, "fast"), ("malformed", 2500, "fast"), ("text", 400, "fast"), ("escapes", 1, "fast"), ("numshort", 1, "fast")], mult=10, special="abort"),
+    "C01": dict(fams=[("rt01", 3000, "fast"), ("print", 600, "fast"), ("chars", 1, "fast"), ("rtwide", 1, "fast"), ("rt01", 800, "nofast")], mult=20),
+    "C02": dict(fams=[("rt02", 3000, "fast"), ("rtall", 1, "fast"), ("chars", 1, "fast"), ("rtwide", 1, "fast")], mult=10),
+    "C03": dict(fams=[("short", 1, "fast"), ("deep", 1, "fast"), ("malformed", 2500, "fast"), ("text", 400, "fast"), ("escapes", 1, "fast"), ("numshort", 1, "fast"), ("num", 3000, "fast"), ("num", 1000, "nofast")], mult=10, special="abort"),
     "C04": dict(fams=[("serde", 1500, "fast")], mult=20),
     "C05": dict(fams=[("num", 6000, "fast"), ("numshort", 1, "fast"), ("num", 3000, "nofast"), ("numshort", 1, "nofast")], mult=20),
     "C06": dict(fams=[("text", 1200, "fast"), ("faults", 150, "fast"), ("malformed", 1200, "fast"), ("escapes", 1, "fast")], mult=10),
@@ -35,7 +35,7 @@ PROPS = {
     "C10": dict(fams=[("text", 1500, "fast"), ("malformed", 1500, "fast"), ("deep", 1, "fast"), ("tok", 1, "fast")], mult=10),
     "C11": dict(fams=[("text", 2000, "fast"), ("malformed", 500, "fast")], mult=10),
     "C12": dict(fams=[("trivia", 2000, "fast"), ("text", 1500, "fast"), ("malformed", 2000, "fast"), ("deep", 1, "fast")], mult=10),
-    "C13": dict(fams=[("pp", 4000, "fast"), ("pp", 1000, "nofast")], mult=10),
+    "C13": dict(fams=[("pp", 4000, "fast"), ("ppfix", 1, "fast"), ("pp", 1000, "nofast")], mult=10),
     "C14": dict(fams=[("serde", 1500, "fast"), ("deser", 1500, "fast")], mult=20),
     "C15": dict(fams=[("values", 1500, "fast"), ("alist", 1500, "fast")], mult=20),
     "C16": dict(fams=[], mult=1, special="depth"),
